@@ -373,3 +373,6 @@ func OpenRA(kind, dir string, file []byte, o Opts) (RA, error) {
 	}
 	panic("unknown RA kind " + kind)
 }
+
+// WrapBS wraps an already opened read-only blockstore.
+func WrapBS(bs *blockstore.ReadOnly) RA { return raBS{bs} }
